@@ -44,12 +44,17 @@ def run(model, rep, tier):
         for g in lc.generators:
             for cond in g.ifs:
                 if 'Nmax' in unparse(cond):
+                    # only filters over the *unshifted* terms (a direct product with the leading inverse) are judged: a filter
+                    # over a list that some helper has already shifted compares another quantity and is left undecided
+                    if not (isinstance(g.iter, ast.Call) and unparse(g.iter.func).endswith('productcoeff') and isinstance(g.target, ast.Tuple)):
+                        rep.undecided('inversecoeff: truncation filter `%s` over %s not judged' % (unparse(cond), unparse(g.iter)[:40]))
+                        continue
                     v = unparse(g.target.elts[0]) if isinstance(g.target, ast.Tuple) else unparse(g.target)
                     from ..engines.linform import rename
                     filters.append((canon(rename(cond, {v: 'N'})), cond))
     rep.floor('truncation filters in inversecoeff', len(filters), 2)
     kinds = {f for f, _ in filters}
-    ok = len(kinds) == 1
+    ok = len(kinds) <= 1
     rep.ob('series-truncation', mod, ic, 'inversecoeff: truncation filters %s' % sorted(unparse(c) for _, c in filters), ok,
            '' if ok else 'the series terms are truncated by different predicates: higher-order terms of the inverse are dropped '
                          '(or kept) inconsistently when the leading power is not zero', engine='siblings', qual='Taylor3D.inversecoeff')
@@ -57,7 +62,7 @@ def run(model, rep, tier):
     okf = False
     if lead and filters:
         want = canon(ast.parse('N + %s <= Nmax' % lead[0]['_N_p'], mode='eval').body)
-        okf = kinds == {want}
+        okf = kinds <= {want}
     rep.ob('series-truncation', mod, ic, 'filters compare (n + leading inverse power) with Nmax', okf,
            '' if okf else 'the filter does not use the power shifted by the leading term', engine='siblings', qual='Taylor3D.inversecoeff')
     ns = pattern.find(ic, '_N_s = (Nmax - _N_p) // _N_t[0][0]')
